@@ -256,6 +256,8 @@ pub fn miri_lane<P: Prop>(tier: Tier, seed: u64, agg: &mut Aggregate) -> Option<
                 "inprocess", P::ID, "--lane", cfg.lane, "--tier", tier.name(), "--seed",
                 &seed.to_string(), "--shard", &shard.to_string(), "--nshards",
                 &cfg.procs.to_string(), "--cases", &total.to_string(),
+                // stop starting new cases well before the wall-clock limit of the process below
+                "--budget-s", tier.pick("300", "1200"),
             ]
             .iter()
             .map(|s| s.to_string())
@@ -304,8 +306,8 @@ pub fn miri_lane<P: Prop>(tier: Tier, seed: u64, agg: &mut Aggregate) -> Option<
         executions,
         reports,
         detail: format!(
-            "{} processes x {} cases of lane '{}', {} non-trivial; report kinds: {:?}",
-            cfg.procs, cfg.cases_per_proc, cfg.lane, nontrivial, kinds
+            "{} processes x up to {} cases of lane '{}' (each process stops starting cases after {} s), {} non-trivial; report kinds: {:?}",
+            cfg.procs, cfg.cases_per_proc, cfg.lane, tier.pick(300, 1200), nontrivial, kinds
         ),
         wall_s: t0.elapsed().as_secs_f64(),
     })
